@@ -183,6 +183,12 @@ func runVector(v *Vector, seed int64, wantTrace bool) VecResult {
 		if hang, _ := obs["hang"].(bool); hang {
 			res.Failures = append(res.Failures, Failure{Vid: v.ID, Step: i + 1, Act: st.Act, Prop: st.Prop, Key: "hang", Got: "no return within watchdog", Want: "return", Sig: sig})
 		}
+		if nn, _ := obs["neither"].(bool); nn {
+			res.Failures = append(res.Failures, Failure{Vid: v.ID, Step: i + 1, Act: st.Act, Prop: st.Prop, Key: "neither", Got: "neither a value nor an error", Want: "value or error", Sig: "neither"})
+		}
+		if hd, ok := obs["hdrdiff"].(string); ok {
+			res.Failures = append(res.Failures, Failure{Vid: v.ID, Step: i + 1, Act: st.Act, Prop: st.Prop, Key: "hdrdiff", Got: "outcome depends on where the pre-parsed header came from (" + hd + ")", Want: "same outcome", Sig: "hdrdiff@" + hd})
+		}
 		if pan, _ := obs["panic"].(bool); pan {
 			if want, has := exp["panic"]; has && want == false {
 				keys = []string{"panic"} // a crash hides every other expectation of the step
@@ -213,6 +219,23 @@ func runVector(v *Vector, seed int64, wantTrace bool) VecResult {
 					f.Sig += "#" + site
 				}
 				res.Failures = append(res.Failures, f)
+			}
+		}
+		if bad := e.checkHeld(); bad != "" {
+			res.Failures = append(res.Failures, Failure{Vid: v.ID, Step: i + 1, Act: st.Act, Prop: st.Prop, Key: "held", Got: "an octet string handed out earlier (" + bad + ") changed during this step",
+				Want: "unchanged", Sig: "held@" + bad})
+		}
+		// pure functions once more, on the twin copy of the inputs that lay behind the parameters during the first call
+		if twinActs[st.Act] && !st.Soft && e.twins[st.Act] != nil {
+			obs3 := runAct(e, st, e.twins[st.Act])
+			e.scribbleTwin(st.Act)
+			for _, k := range keys {
+				if k == "hang" || k == "repeat" {
+					continue
+				}
+				if !eqJ(obs3[k], exp[k]) && eqJ(obs[k], exp[k]) {
+					res.Failures = append(res.Failures, Failure{Vid: v.ID, Step: i + 1, Act: st.Act, Prop: st.Prop, Key: k, Got: short(obs3[k]), Want: short(exp[k]), Sig: "twin@" + k})
+				}
 			}
 		}
 		// an absent octet string may reach the library as nil or as an empty non-nil slice: same expectations either way
